@@ -209,10 +209,12 @@ def e2e_value(row, rng, mode, now_dt):
         k = rng.random()
         if k < .3:
             return pick(["today", "now", "month", "year", "epoch"])
-        off = pick(["Z", "+05:30", "-08:00", "+00:00", "+14:00", "-03:30", "+01:00"])
+        off = pick(["Z", "+05:30", "-08:00", "Z", "+14:00", "-03:30", "+01:00"])
         base = now_dt - datetime.timedelta(seconds=rng.randrange(3600, 40 * 86400))
-        frac = pick(["", "", ".5", ".250000", ".999999"])
-        tz = datetime.timezone.utc if off == "Z" else parse_xs_datetime("2000-01-01T00:00:00" + off).tzinfo
+        frac = pick(["", "", ".500000", ".250000", ".999999"])   # canonical text: the model's date-time codec
+        if off == "Z" and rng.random() < .3:
+            off = ""          # a start time without zone: taken as UTC (check_option_values)
+        tz = datetime.timezone.utc if off in ("Z", "") else parse_xs_datetime("2000-01-01T00:00:00" + off).tzinfo
         loc = base.astimezone(tz).replace(microsecond=0)
         return ("text", loc.strftime("%Y-%m-%dT%H:%M:%S") + frac + off)
     if cgi == "depth":
@@ -301,6 +303,10 @@ def gen_case(rng, rows):
             continue        # the tears fixture has no encrypted files
         v = e2e_value(r, rng, mode, now_dt)
         params[r["cgi"]] = v[1] if isinstance(v, tuple) and v and v[0] == "text" else L.cgi_text_of(r["kspec"], v)
+    if rng.random() < .12:
+        for hk, hv in rng.choice(U.HOSTILE_ARGS).items():
+            if not (hk == "drm" and stream == "tears"):
+                params[hk] = hv
     if any(c in params for c in ("verr", "aerr", "terr", "vcorrupt")) and mode == "live" and "start" not in params:
         params["start"] = "today"     # times of day only make sense against today's availabilityStartTime
     return {"mode": mode, "stream": stream, "manifest": manifest, "params": params, "now": NOW}
@@ -357,6 +363,7 @@ def run_case(case, rows, want_model=True):
     from dashlive.server.requesthandler.manifest_requests import ServeManifest
     from dashlive.server.requesthandler.media_requests import LiveMedia
     a = app()
+    _ = ServeManifest
     url = case_url(case)
     mode = case["mode"]
     fails, lines, stats = [], [], {"status": None, "urls": 0, "compared": 0, "keys": []}
@@ -364,6 +371,21 @@ def run_case(case, rows, want_model=True):
         resp = a.client().get(url)
         stats["status"] = resp.status_code
         if resp.status_code != 200:
+            if resp.status_code == 400 and want_model:
+                # which refusal: the model must refuse the same request for the same reason
+                body = resp.get_data(as_text=True)
+                want = ("!invalidOptions" if "Invalid CGI parameters" in body else
+                        "!patchNeedsTimeline" if "does not SegmentTimeline" in body else None)
+                if want:
+                    with a.app.test_request_context(url):
+                        stream = a.models.Stream.get(directory=case["stream"])
+                        defaults = OptionsRepository.get_default_options()
+                        if stream.defaults is not None:
+                            defaults = defaults.clone(**stream.defaults)
+                        dspec = U.container_spec(rows, defaults)
+                    aspec = ";".join(f"{L.hx(k)}={L.hx(v)}" for k, v in case["params"].items()) or "-"
+                    lines.append((f"optserve {case['manifest']} {L.hx(mode)} {dspec} {aspec}", want, "optserve",
+                                  {"status": 400}))
             return fails, lines, stats
         with a.app.test_request_context(url):
             models = a.models
@@ -376,17 +398,12 @@ def run_case(case, rows, want_model=True):
             if stream.defaults is not None:
                 defaults = defaults.clone(**stream.defaults)
             dspec = U.container_spec(rows, defaults)
-            # the steps of ServeManifest.get between parsing and rendering
-            final = mopts.clone()
-            if mode != "live":
-                final.update(patch=False)
-            if "segmentTimeline" not in mft.features:
-                final.update(segmentTimeline=False)
-            elif mft.segment_timeline or final.patch:
-                final.update(segmentTimeline=True)
-            final.add_field("mode", mode)
-            final.remove_unused_parameters(mode)
-            fspec = U.container_spec(rows, final)
+            aspec = ";".join(f"{L.hx(k)}={L.hx(v)}" for k, v in case["params"].items()) or "-"
+            if want_model:
+                # the handler's option pipeline (restrictions, features, value check, filters) vs the model
+                final = U.serve_manifest_options(mft, mode, flask.request.args, stream)
+                lines.append((f"optserve {case['manifest']} {L.hx(mode)} {dspec} {aspec}",
+                              final if isinstance(final, str) else U.container_spec(rows, final), "optserve", {}))
             reps = {mf.name: mf.representation for mf in models.MediaFile.search(stream=stream)}
         manifest_abs = urllib.parse.urljoin("http://localhost/", url)
         try:
@@ -400,7 +417,10 @@ def run_case(case, rows, want_model=True):
         if root.get("availabilityStartTime"):
             ast = parse_xs_datetime(root.get("availabilityStartTime"))
         if root.get("timeShiftBufferDepth"):
-            depth = int(parse_xs_duration(root.get("timeShiftBufferDepth")))
+            try:
+                depth = int(parse_xs_duration(root.get("timeShiftBufferDepth")))
+            except ValueError:
+                depth = None      # a start time in the future (negative duration): C08's subject
         _, drm_sel = get_field(mopts, next(r for r in rows if r["cgi"] == "drm"))
         selected = {n for n, _ in (drm_sel or [])}
         _, events = get_field(mopts, next(r for r in rows if r["cgi"] == "events"))
@@ -461,14 +481,17 @@ def run_case(case, rows, want_model=True):
                 elif cgi == "depth" and depth is not None:
                     ok = dv == depth
                     mv = depth
+                elif cgi in ("start", "depth") and mode == "live":
+                    continue      # the manifest does not advertise a usable value (start in the future: C08)
                 elif cgi in INJECT and mv:
-                    if rep is None or (mode == "live" and ast is None):
+                    if rep is None or (mode == "live" and (ast is None or depth is None)):
                         continue
                     if cgi == "vcorrupt":
                         errs = []
                         for tc in mv:
                             errs.append((None, int(tc) if re.fullmatch(r"\d+", tc) else
-                                         datetime.datetime.strptime(tc, "%H:%M:%SZ").time()))
+                                         datetime.datetime.strptime(tc, "%H:%M:%SZ").time() if len(tc) == 9
+                                         else parse_xs_datetime(tc)))
                         want = expected_injection(errs, now_dt, ast, depth or 0, rep.timescale,
                                                   rep.segment_duration, with_code=False)
                     else:
@@ -492,10 +515,11 @@ def run_case(case, rows, want_model=True):
                 if (what == "init" or mode == "odvod") and case["manifest"] != "manifest_vod_aiv.mpd":
                     args = dict(urllib.parse.parse_qsl(sp.query, keep_blank_values=True))
                     ov_keys = [k for k in ("start", "depth", "verr", "aerr", "terr", "vcorrupt") if k in args]
-                    ov_idx = {i for i, r in enumerate(rows) if r["cgi"] in ov_keys}
                     ovs = ";".join(f"{k}=T{L.hx(args[k])}" for k in ov_keys) or "-"
-                    lines.append((f"optmediaquery {bit} {dspec} {set_absent(fspec, ov_idx)} {ovs}",
-                                  L.hx("?" + sp.query if sp.query else ""), "optmediaquery", where))
+                    # predicted from the *request*: request args → calculate_options(restrictions, features,
+                    # stream defaults) → handler filters → generate_cgi_parameters → dict_to_cgi_params
+                    lines.append((f"optreqquery {case['manifest']} {L.hx(mode)} {bit} {dspec} {aspec} {ovs}",
+                                  L.hx("?" + sp.query if sp.query else ""), "optreqquery", where))
     return fails, lines, stats
 
 
@@ -566,7 +590,7 @@ def run_e2e(ctx, ch: Channel, cases=None):
             mode_idx = {i for i, r in enumerate(rows) if r["cgi"] == "mode"}
             mo = set_absent(mo, mode_idx)
         if mo != "driver-error" and mo != impl:
-            if what == "optmediaquery" and mo not in ("bad-op",):
+            if what == "optreqquery" and mo not in ("bad-op",) and not mo.startswith("!"):
                 try:
                     mo_s, impl_s = L.unhx(mo), L.unhx(impl)
                 except Exception:
